@@ -172,6 +172,32 @@ pub async fn run(out: &mut Out) {
         held.push(s);
         probe(out, "open-tunnel-then-reload", api, http, socks, origin, rules_json).await;
     }
+    // a slow reader of the history (it holds the history list's lock, as GET /api/history does while it serialises) while the
+    // collector wants to move an ended connection into the history, and GET /api/status arrives in between
+    {
+        let g = w.state.contexts.terminated.lock().await;
+        // one connection ends: the collector's next tick (<= 1 s) queues on the history list
+        if let Ok(mut s) = TcpStream::connect(("127.0.0.1", http)).await {
+            let _ = s.write_all(format!("CONNECT 127.0.0.1:{} HTTP/1.1\r\nHost: x\r\n\r\nbye", origin).as_bytes()).await;
+            let mut r = vec![0u8; 42];
+            let _ = tokio::time::timeout(std::time::Duration::from_secs(2), s.read_exact(&mut r)).await;
+            drop(s);
+        }
+        tokio::time::sleep(std::time::Duration::from_millis(1300)).await;
+        // a patient client (no timeout of its own: a handler is cancelled when its client goes away)
+        let status = tokio::spawn(async move {
+            if let Ok(mut s) = TcpStream::connect(("127.0.0.1", api)).await {
+                let _ = s.write_all(b"GET /api/status HTTP/1.1\r\nHost: x\r\nConnection: close\r\n\r\n").await;
+                let mut v = vec![];
+                let _ = tokio::time::timeout(std::time::Duration::from_secs(30), s.read_to_end(&mut v)).await;
+            }
+        });
+        tokio::time::sleep(std::time::Duration::from_millis(150)).await;
+        drop(g);
+        tokio::time::sleep(std::time::Duration::from_millis(100)).await;
+        probe(out, "history-read-slow-during-gc-then-status", api, http, socks, origin, rules_json).await;
+        status.abort();
+    }
     drop(held);
     // TLS / QUIC / reverse-UDP listeners: clients stalled at every handshake stage, the API and a fresh client per listener
     super::stall::stall_matrix_api(out, "C14", true).await;
